@@ -196,3 +196,63 @@ func c19deviceUpdate(c *Ctx) {
 	}
 	r.Check(ok && len(muts) >= 2 && len(parses) >= 1, "ORDER", fkey(fn)+"/validate-then-one-section", c.Pos(fn.Pos()), "annotations are read before the ledger changes; release and add share one critical section", "a replayed update can release a running pod's devices and then fail or pause before recording them again ("+why+"): the device is considered free")
 }
+
+// c19values: what is rebuilt / persisted is the figure that was recorded, not a position or the last addend.
+func c19values(c *Ctx) {
+	r := c.R
+	r.Rule("FLOW(NUMA id): in nodenumaresource podEventHandler.updatePod the Node of every rebuilt NUMANodeResource derives from the Node field of the persisted entry (not from its position in the list: an allocation on NUMA node 1 alone would be rebuilt on node 0)")
+	if fn := c.Fn(numaPkg, "podEventHandler", "updatePod"); fn != nil {
+		n, ok := 0, true
+		for _, b := range fn.Blocks {
+			for _, in := range b.Instrs {
+				st, isS := in.(*ssa.Store)
+				if !isS {
+					continue
+				}
+				owner, field, _, isF := an.FieldOf(st.Addr)
+				if !isF || field != "Node" || !strings.HasSuffix(owner, "nodenumaresource.NUMANodeResource") {
+					continue
+				}
+				n++
+				from := false
+				for x := range backwardAll(st.Val) {
+					if fa, isFA := x.(*ssa.FieldAddr); isFA {
+						if o2, f2, _, ok2 := an.FieldOf(fa); ok2 && f2 == "Node" && strings.HasSuffix(o2, "extension.NUMANodeResource") {
+							from = true
+						}
+					}
+				}
+				if !from {
+					ok = false
+				}
+			}
+		}
+		r.Check(ok && n >= 1, "FLOW", fkey(fn)+"/numa-id-from-record", c.Pos(fn.Pos()), "the NUMA node id is read back from the record", "the NUMA node of a rebuilt allocation does not come from the persisted entry's Node field: after a restart the amount is booked on another NUMA node and the occupied one looks free")
+	}
+	r.Rule("AGG(sum over devices): in deviceshare updateReservationAllocatable the amount persisted through UpdateReservationResizeAllocatable is accumulated with quotav1.Add over every allocated device (two devices of one type count twice)")
+	if fn := c.Fn(devPkg, "", "updateReservationAllocatable"); fn != nil {
+		n, ok := 0, true
+		for _, cl := range an.Calls(fn, false) {
+			if an.ShortCallee(cl.Common()) != "UpdateReservationResizeAllocatable" {
+				continue
+			}
+			n++
+			sum := false
+			for x := range backwardAll(cl.Common().Args[1]) {
+				if call, isC := x.(*ssa.Call); isC && strings.HasSuffix(an.CalleeName(&call.Call), "quota/v1.Add") {
+					sum = true
+				}
+			}
+			// a map filled key by key is an overwrite, not a sum
+			for _, src := range cellSources(cl.Common().Args[1]) {
+				if _, isMM := src.(*ssa.MakeMap); isMM {
+					sum = false
+				}
+			}
+			if !sum {
+				ok = false
+			}
+		}
+		r.Check(ok && n >= 1, "AGG", fkey(fn)+"/sum", c.Pos(fn.Pos()), "the persisted amount is the sum over the devices", "the amount persisted for the reservation is not accumulated with quotav1.Add: with two devices of a type the record holds one device's amount, and the restarted scheduler sizes the reservation to half of what is taken")
+	}
+}
